@@ -371,7 +371,14 @@ func (c *Ctx) d5Reader(name string, size int64, isDecoder func(*ssa.Function) bo
 		why = append(why, fmt.Sprintf("buffer length %d != %d", bl, size))
 	}
 	if core.IsFunc(core.Callee(ra.Common()), "io", "ReadAtLeast") {
-		if m, isK := core.ConstInt(ra.Common().Args[2]); !isK || m != size {
+		m, isK := core.ConstInt(ra.Common().Args[2])
+		if !isK {
+			// len(buf) of the same buffer
+			if x, isLen := core.IsLenOf(ra.Common().Args[2]); isLen && x == buf && bl >= 0 {
+				m, isK = bl, true
+			}
+		}
+		if !isK || m != size {
 			ok = false
 			why = append(why, fmt.Sprintf("ReadAtLeast minimum %d != %d", m, size))
 		}
